@@ -7,7 +7,7 @@ TARGETS = ['pytezos.michelson.repl.Interpreter.execute', 'pytezos.michelson.type
            'pytezos.michelson.instructions.struct.EmptyBigMapInstruction/UpdateInstruction', 'pytezos.michelson.stack.MichelsonStack']
 STUBS = ['michelson_to_micheline (PLY parser) inside repl.py -> table lookup cell-name -> Micheline (cells are built as Micheline so that their integer leaves can be symbolic); '
          'the parser itself is C18', 'format_stdout -> no-op']
-BOUNDS = {'quick': 'a session skeleton of 10 successful cells (declarations, EMPTY_BIG_MAP, UPDATE with symbolic values, DIP-protected stack manipulation, removal, BEGIN, two COMMITs) with '
+BOUNDS = {'quick': 'a session skeleton of 12 successful cells (declarations, EMPTY_BIG_MAP, UPDATE with symbolic values, DIP-protected stack manipulation, removal, BEGIN, two COMMITs) with '
                    'up to 2 failing cells inserted at solver-chosen positions; a failing cell is a solver-chosen prefix (every instruction position) of one of 7 cell bodies followed by FAILWITH, '
                    'optionally wrapped in DIP',
           'thorough': 'up to 3 failing cells'}
@@ -27,16 +27,18 @@ def P(prim, *args):
     return e
 
 
-def cells(val):
+def cells(val, debug=False):
     """Cell bodies as Micheline; val(name) gives an integer literal (symbolic or concrete)."""
     def lit(name):
         return {'int': val(name)}
 
     upd = lambda key, name: [P('PUSH', INT, lit(name)), P('SOME'), P('PUSH', NAT, {'int': str(key)}), P('UPDATE')]   # noqa
     rem = lambda key: [P('NONE', INT), P('PUSH', NAT, {'int': str(key)}), P('UPDATE')]   # noqa
-    skeleton = [
+    skeleton = ([('debug-on', [P('DEBUG', {'int': '1'})])] if debug else []) + [
         ('decl-parameter', [P('parameter', {'prim': 'unit'})]),
         ('decl-storage', [P('storage', BM)]),
+        ('push-or', [P('PUSH', P('or', INT, NAT), P('Left', lit('o')))]),
+        ('compare-or-with-a-fresh-equal-value', [P('PUSH', P('or', INT, NAT), P('Left', lit('o'))), P('COMPARE')]),
         ('begin', [P('BEGIN', P('Unit'), [])]),
         ('cdr', [P('CDR')]),
         ('update-1', upd(1, 'a')),
@@ -115,7 +117,16 @@ def run_session(cell_list):
         for i, (name, code) in enumerate(cell_list):
             key = f'#{i}'
             table[key] = code
-            res = interp.execute(key)
+            try:
+                res = interp.execute(key)
+            except Exception as e:  # noqa: in debug mode (DEBUG 1) a failing cell re-raises instead of returning the error
+                from pytezos.michelson.parse import MichelsonParserError
+                from pytezos.michelson.micheline import MichelsonRuntimeError
+
+                if not isinstance(e, (MichelsonParserError, MichelsonRuntimeError)):
+                    raise
+                out.append((name, False, snapshot(interp), None))
+                continue
             ok = res.error is None
             commit = None
             if ok and res.instructions is not None:
@@ -136,7 +147,7 @@ def _lazy(lazy):
 
 
 def _plan(P_, choose, val):
-    skeleton, bodies = cells(val)
+    skeleton, bodies = cells(val, P_.get('debug', False))
     nfail = P_['nfail']
     inserts = []
     for j in range(nfail):
@@ -251,8 +262,10 @@ def obligations(tier):
     obs.append(Ob('session/failing-cells=1', 'bvx', sym_session, conc_session, {'nfail': 1}, timeout=300 if q else 3000,
                   bounds='1 failing cell: position, body (7), failure point (every instruction position) and DIP wrapping chosen by the solver; all pushed values symbolic',
                   targets=TARGETS))
+    obs.append(Ob('session/debug-mode/failing-cells=1', 'bvx', sym_session, conc_session, {'nfail': 1, 'debug': True}, timeout=300 if q else 3000,
+                  bounds='the same with DEBUG 1 as the first cell (a failing cell then re-raises out of execute())', targets=TARGETS))
     for nfail in ((2,) if q else (2, 3)):
-        for pos0 in range(0, 14, 1 if not q else 2):
+        for pos0 in range(0, 16, 1 if not q else 2):
             obs.append(Ob(f'session/failing-cells={nfail}/first-at={pos0}', 'bvx', sym_session, conc_session, {'nfail': nfail, 'pos0': pos0}, timeout=300 if q else 3000,
                           bounds=f'{nfail} failing cells, the first before skeleton cell {pos0}, the others at solver-chosen later positions; 3 bodies, failure at start/middle/end',
                           targets=TARGETS))
